@@ -24,11 +24,20 @@ struct Plan
 {
     int nnodes, nlists, nops;
 };
+// the *_many targets: hundreds of nodes (size(), traversals and membership over lists longer than 255)
+static bool g_many = false;
 Plan make_plan(Src &s, bool enumerate)
 {
     if (enumerate)
         return Plan{3, 2, tier() ? 4 : 3};
     Plan p;
+    if (g_many)
+    {
+        p.nnodes = (int)s.range(258, 300);
+        p.nlists = (int)s.range(1, 2);
+        p.nops = (int)s.range(300, 800);
+        return p;
+    }
     p.nnodes = (int)s.range(1, 12);
     p.nlists = (int)s.range(1, 3);
     p.nops = (int)(s.coin() ? s.range(0, 12) : s.range(0, 60));
@@ -69,6 +78,13 @@ struct CDlistWorld
     std::vector<std::unique_ptr<dlist_head>> heads;
     std::vector<std::vector<int>> model; // ids per list, in forward order
     bool big_op = false;                 // a removal/move on a list with >= 2 elements happened
+    size_t longest() const
+    {
+        size_t m = 0;
+        for (auto &l : model)
+            m = std::max(m, l.size());
+        return m;
+    }
     int universe;
 
     CDlistWorld(Case &c_, const Plan &p) : c(c_), universe(p.nnodes)
@@ -361,8 +377,19 @@ template <class World> void run_history(Src &s, Case &c, bool enumerate, const c
     World &w = *wp;
     w.check();
     int ntargets = p.nlists + p.nnodes;
+    size_t longest = 0;
+    if (g_many)
+    {
+        // prelude: nearly all nodes go onto list 0 (front, back or alternating), so the random history that follows works
+        // on a list of more than 255 elements
+        int mode = (int)s.below(3), fill = p.nnodes - (int)s.below(8);
+        for (int i = 0; i < fill; i++)
+            w.apply(mode == 0 ? 1 : mode == 1 ? 0 : (i & 1), i, 0);
+        w.check();
+    }
     for (int i = 0; i < p.nops; i++)
     {
+        longest = std::max(longest, w.longest());
         int op = (int)s.below(World::kOps);
         int a = (int)s.below((uint64_t)p.nnodes);
         int t = (int)s.below((uint64_t)ntargets);
@@ -377,9 +404,16 @@ template <class World> void run_history(Src &s, Case &c, bool enumerate, const c
             if (!done)
                 continue;
         }
-        w.check();
+        // the full check is quadratic in the number of nodes: every 16th step (and at the end) for the big worlds
+        if (!g_many || i % 16 == 15 || i + 1 == p.nops)
+            w.check();
     }
     c.nontrivial = w.big_op;
+    if (g_many)
+    {
+        c.label(longest > 255 ? "list_longer_than_255" : longest > 100 ? "list_longer_than_100" : "lists_short");
+        c.nontrivial = w.big_op && longest > 255;
+    }
     w.finish();
     delete wp;
 }
@@ -406,6 +440,13 @@ struct CxxDlistWorld
     size_t nlists;
     bool big_op = false;
     int universe;
+    size_t longest() const
+    {
+        size_t m = 0;
+        for (size_t l = 0; l < nlists && l < ring.size(); l++)
+            m = std::max(m, ring[l].size());
+        return m;
+    }
 
     CxxDlistWorld(Case &c_, const Plan &p) : c(c_), nlists((size_t)p.nlists), universe(p.nnodes)
     {
@@ -743,6 +784,21 @@ struct CDlistWorldF : CDlistWorld
 
 void t_c_dlist(Src &s, Case &c) { run_history<CDlistWorldF>(s, c, false, "c_dlist"); }
 void t_cxx_dlist(Src &s, Case &c) { run_history<CxxDlistWorld>(s, c, false, "cxx_dlist"); }
+struct ManyMode
+{
+    ManyMode() { g_many = true; }
+    ~ManyMode() { g_many = false; }
+};
+void t_c_dlist_many(Src &s, Case &c)
+{
+    ManyMode m;
+    run_history<CDlistWorldF>(s, c, false, "c_dlist");
+}
+void t_cxx_dlist_many(Src &s, Case &c)
+{
+    ManyMode m;
+    run_history<CxxDlistWorld>(s, c, false, "cxx_dlist");
+}
 void t_c_dlist_enum(Src &s, Case &c) { run_history<CDlistWorldF>(s, c, true, "c_dlist"); }
 void t_cxx_dlist_enum(Src &s, Case &c) { run_history<CxxDlistWorld>(s, c, true, "cxx_dlist"); }
 template <int OPS> unsigned __int128 dl_enum_size(int tier)
@@ -1026,6 +1082,10 @@ VP_TARGET("slist", t_slist, "C slist (slist_add at head / after a node, slist_po
 VP_TARGET("hlist", t_hlist,
           "hlist: hlist_add_next at the head / after a node, hlist_del of first/middle/last/unhashed nodes; hlist_for_each and "
           "hlist_for_each_entry (member at a non-zero offset) against the reference, pprev back-pointers after every op");
+VP_TARGET("c_dlist_many", t_c_dlist_many,
+          "C dlist with 258..300 nodes on 1..2 lists and 300..800 operations of the same kinds (lists grow past 255 elements): "
+          "size, traversals, membership, symmetry checked every 16th step and at the end");
+VP_TARGET("cxx_dlist_many", t_cxx_dlist_many, "igris::dlist with 258..300 nodes on 1..2 lists and 300..800 operations; same checks, every 16th step and at the end");
 VP_TARGET("c_dlist_enum", t_c_dlist_enum, "exhaustive: every history of 3 (quick) / 4 (thorough) operations x 3 nodes x 5 targets over 2 lists (C dlist)",
           dl_enum_size<11>);
 VP_TARGET("cxx_dlist_enum", t_cxx_dlist_enum, "exhaustive: every history of 3 (quick) / 4 (thorough) operations x 3 nodes x 5 targets over 2 lists (igris::dlist)",
